@@ -226,6 +226,62 @@ def in_place_loading(ctx, rep, rule: str) -> None:
     kvar, vvar = _item_loop_vars(up)
     ok = len(copies) == 1 and _norm(copies[0].func.value) == f"{vvar}.detach()" and _norm(copies[0].args[0]) == f"{up.params[1]}[{kvar}]"
     rep.ob(rule, "param-state-tensor-copied-in-place", ok, up.loc(), "update_param_state_dict_object copies the loaded tensor into the existing state tensor, through detach() (works for tensors that require grad, records no autograd history)")
+    # every kind of tensor reaches the in-place arm: the dispatch of update_param_state_dict_object is evaluated for a 0-dim
+    # tensor (the step counter), an n-dim tensor and an instance of a Tensor SUBCLASS (the DTensor state of the DDP distributor)
+    from types import SimpleNamespace
+
+    from ..guards import MISSING, Interp, Raised, Unsupported
+
+    class _T:  # stands for torch.Tensor
+        def __init__(self, nd):
+            self._nd = nd
+
+        def dim(self):
+            return self._nd
+
+        ndimension = dim
+        ndim = property(lambda self: self._nd)
+        shape = property(lambda self: (2,) * self._nd)
+
+        def numel(self):
+            return 2 ** self._nd
+
+    class _DT(_T):  # stands for a subclass such as DTensor / Parameter
+        pass
+
+    torch_ns = SimpleNamespace(Tensor=_T, nn=SimpleNamespace(Parameter=_DT))
+
+    def hook(it, c):
+        f = c.func
+        if isinstance(f, ast.Attribute) and f.attr in ("dim", "ndimension", "numel"):
+            b = it.ev(f.value)
+            if isinstance(b, _T):
+                return getattr(b, f.attr)()
+        return MISSING
+
+    loops = [n for n in A.walk_no_nested(up.node) if isinstance(n, ast.For) and _norm(n.iter).endswith(".items()")]
+    chain = [st for lp in loops[:1] for st in lp.body if isinstance(st, ast.If) and vvar in A.names_in(st.test) and kvar not in A.names_in(st.test)]
+    bad = []
+    for label, val in (("0-dim tensor", _T(0)), ("2-dim tensor", _T(2)), ("Tensor subclass instance (DTensor)", _DT(2)), ("0-dim Tensor subclass instance", _DT(0))):
+        node = chain[-1] if chain else None
+        arm = None
+        while node is not None:
+            try:
+                taken = bool(Interp({vvar: val}, resolve_name=lambda nm: torch_ns if nm == "torch" else (_T if nm in ("Tensor",) else (_ for _ in ()).throw(Unsupported(nm))), call_hook=hook).ev(node.test))
+            except (Unsupported, Raised) as u:
+                raise AnalysisError(f"{rule}: dispatch test of update_param_state_dict_object outside the sub-language: {u}") from u
+            if taken:
+                arm = node.body
+                break
+            if len(node.orelse) == 1 and isinstance(node.orelse[0], ast.If):
+                node = node.orelse[0]
+            else:
+                arm = node.orelse
+                break
+        in_place = arm is not None and any(isinstance(c.func, ast.Attribute) and c.func.attr == "copy_" for s_ in arm for c in A.calls(s_)) and not any(isinstance(n, (ast.Assign, ast.AugAssign)) and any(isinstance(t, ast.Subscript) for t in (n.targets if isinstance(n, ast.Assign) else [n.target])) for s_ in arm for n in ast.walk(s_))
+        if not in_place:
+            bad.append(label)
+    rep.ob(rule, "every-tensor-is-loaded-in-place", bool(chain) and not bad, up.loc(chain[-1]) if chain else up.loc(), "the kind dispatch of update_param_state_dict_object sends a 0-dim tensor, an n-dim tensor and Tensor-subclass instances to the arm that copies into the existing tensor (the step counter and DTensor state stay the objects the optimizer's lists alias)" + (f"; replaced instead of copied into: {bad}" if bad else ""), sample=True)
     # keyed lookup agreement: writer keys sequences by position (enumerate), dicts by key; the reader must look up the same keys
     save = A.worker(repo, repo.meth(om, "state_dict"))
     w_seq = any("enumerate(value)" in _norm(c) for c in A.calls(save.node, nested=True) if isinstance(c.func, ast.Name) and c.func.id == save.name)
